@@ -1256,6 +1256,17 @@ class Env:
             self.claims.append((label, "ok", None))
             return True
         r = self._check(z3.Not(cond), long=True)
+        if r == z3.unknown:
+            # last resort before declaring the VC inconclusive: one more one-shot attempt with a
+            # three times longer limit (a loaded machine must not turn a provable VC into exit 2)
+            s3 = z3.Solver()
+            s3.set("timeout", 3 * max(eng.timeout_ms, eng.vc_timeout_ms))
+            for a_ in self.solver.assertions():
+                s3.add(a_)
+            s3.add(z3.Not(cond))
+            r = s3.check()
+            self._model_src = s3
+            eng.queries += 1
         if r == z3.unsat:
             self.claims.append((label, "ok", None))
             return True
